@@ -2,7 +2,10 @@
    the scope chain (pushed namespaces ▷ locals ▷ globals chain ▷ builtin ▷ counters), path resolution
    (RenderContext.get / get_item), assign/capture/for/with/if/include/render/macro/call/increment/decrement,
    RenderContext.copy for isolated partials and macro bodies, disabled tags, the four undefined types and the
-   strict/lax tolerance modes.  Shared model of C14, C15 and C16.  Executable definitions only (no proofs). *)
+   strict/lax tolerance modes.  Shared model of C14, C15 and C16.  Executable definitions only (no proofs).
+   The model is that of the code AFTER the two C15 repairs (.work/fixes/C15-*.patch): `copy` builds an isolated scope on
+   the root globals, and render..for copies the context once per item; the old behaviours are kept as copy_old and
+   render_loop_old for the witnesses in Props/C15.v. *)
 From Coq Require Import String Ascii.
 From LiquidVerif Require Import Prelude PyPrims.
 
